@@ -222,6 +222,22 @@ UNITS += [
 
 # restore reads several blobs of one pack with ONE ranged read (PackInfo::coalesce over BlobLocations): the units live in
 # C02's spec (BlobLocations is shared with prune/copy) and are verified as part of this property's check as well
+LD = "crates/core/src/backend/local_destination.rs"
+UNITS += [
+    Unit(name="matching_file_decision", file=LD, kind="block", within="pub fn get_matching_file(&self, item: impl AsRef<Path>, size: u64) -> Option<File>",
+         anchor=r"@closure:~\.map_or_else\(\s*\|_\| None,\s*\|meta\|",
+         block_sig="fn matching_file_decision(meta: &MetaR, size: u64, filename: &PathD) -> (r: Option<OpenedFile>)",
+         block_tail="",
+         functions=["backend::local_destination::LocalDestination::get_matching_file (closure deciding on the existing entry's metadata)"],
+         rewrites=[Rw("File::open(&filename).ok()", "vopen_ok(filename)", why="File::open + ok() -> stub")],
+         contract="""
+    ensures
+        // an existing destination entry is compared blob by blob (and left as it is when every blob matches: add_file's `Verified`)
+        // only if it is a regular file of EXACTLY the snapshot file's size -- a longer file would keep its tail
+        /*@only_a_regular_file_of_exactly_the_size_is_reused*/ r is Some ==> meta.is_file && meta.len == size,
+"""),
+]
+
 SATELLITES = [("C02", ["blob_constants", "BlobLocation", "BlobLocations", "from_blob_location", "can_coalesce", "append", "coalesce", "PackToDo", "RepackReason", "PackInfo", "PrunePack", "CopyPackBlobs", "RestorePackInfo", "restore_packinfo_coalesce", "FileLocation", "restore_read_of_blob", "restore_needed_pack"])]
 
 META = {"not_covered": [
